@@ -207,6 +207,11 @@ fn fulfill_promise(
         mem::take(&mut state_mut.handlers)
     };
 
+    // The handlers are no longer reachable from the promise: keep all of them (and the value)
+    // rooted while the earlier ones run script code
+    let handlers_guard = interp.heap.create_guard();
+    guard_handlers(&handlers_guard, &handlers, &value);
+
     // Trigger handlers synchronously
     for handler in handlers {
         trigger_handler(interp, handler, &value, true)?;
@@ -243,6 +248,11 @@ fn reject_promise(
         interp.cancelled_orders.push(id);
     }
 
+    // The handlers are no longer reachable from the promise: keep all of them (and the reason)
+    // rooted while the earlier ones run script code
+    let handlers_guard = interp.heap.create_guard();
+    guard_handlers(&handlers_guard, &handlers, &reason);
+
     // Trigger handlers synchronously
     for handler in handlers {
         trigger_handler(interp, handler, &reason, false)?;
@@ -269,6 +279,20 @@ pub fn reject_promise_value(
     reason: JsValue,
 ) -> Result<(), JsError> {
     reject_promise(interp, promise, reason)
+}
+
+/// Root everything a list of detached handlers refers to
+fn guard_handlers(guard: &Guard<JsObject>, handlers: &[PromiseHandler], value: &JsValue) {
+    value.guard_by(guard);
+    for handler in handlers {
+        guard.guard(handler.result_promise.clone());
+        if let Some(JsValue::Object(cb)) = &handler.on_fulfilled {
+            guard.guard(cb.clone());
+        }
+        if let Some(JsValue::Object(cb)) = &handler.on_rejected {
+            guard.guard(cb.clone());
+        }
+    }
 }
 
 /// Trigger a promise handler
